@@ -502,7 +502,12 @@ class Run03(object):
         elif o == 'update':
             items = [(dec(x), make_value(dec(v))) for x, v in op[1]]
             self.keys_used.extend(x for x, _ in items)
-            a.update(dict(items))
+            # dict.update takes a mapping or an iterable of pairs (alternating by step)
+            if self.step % 3 == 1 and all(_hashable(x) for x, _ in items):
+                a.update(list(items))
+                self.note('c03_update_with_pairs')
+            else:
+                a.update(dict(items))
             M.update(dict(items))
             self.note('c03_ops')
         elif o == 'updatekw':
@@ -610,6 +615,14 @@ class Run03(object):
                     conn.close()
                 import shutil
                 shutil.rmtree(sub, ignore_errors=True)
+
+
+def _hashable(x):
+    try:
+        hash(x)
+        return True
+    except TypeError:
+        return False
 
 
 def _s(v):
